@@ -154,6 +154,10 @@ def bounded(repo, tier, seed):
     modes = ['best', 'separate', 'joined', 'all']
     r2 = pd.run(repo, tier, seed, ['C03'], (lambda i: [modes[i % 4]]) if tier == 'quick' else modes, 42 if tier == 'quick' else 600,
                 params_list=[{}, {'d': 600}, {'d': 3000}], weights=[1, 2, 1, 3, 3, 1])
+    # ... molecules with tandem duplications (the two passes align overlapping reference stretches, the join has to trim), default mode, worker results
+    # handed over as pickled copies as the real pool does
+    r2t = pd.run(repo, tier, seed + 5, ['C03'], lambda i: ['best'] if i % 3 else ['all'], 24 if tier == 'quick' else 400, params_list=[{}],
+                 overrides=lambda i: dict(generator='tandem'))
     # ... and the candidate rows the aligner builds from several nearby seed peaks (conflict resolution is where invalid matchings come from)
     na = 30000 if tier == 'quick' else 800000
     seeds = [seed * 1000003 + i for i in range(na)]
@@ -172,7 +176,7 @@ def bounded(repo, tier, seed):
                 "conflict monitor attributes it to a known conflict-resolution finding (K1/K2); each valid row is also joined with itself (what mode 'best' does when a "
                 "second-pass row wins) and the joined record's HitEnum replayed; non-trivial = >= 2 segments",
                 [build_case(seeds[0])], list(v3.values())[:4], exhaustive=False, bounds=f"{na} generated cases")
-    return merge([r1, r2, r3])
+    return merge([r1, r2, r2t, r3])
 
 
 CIGAR = 'src/alignment/alignment_results.py::AlignmentResultRow.cigarString'
